@@ -68,6 +68,24 @@ def _classify_own(ctx, b, bb, mp, unit_fns, defs):
                     ok = all(x in pushes or any(b.dominates(p, x) for p in pushes) or (bb not in b.reachable([y for y in b.succ(x) if y not in pushes], avoid=pushes)) for x in sets)
                     if ok:
                         classes.append('D:flag-set-only-with-push')
+                # D': a local counter that starts at 0 and is only incremented together with a push (`n += 1; push(..)` .. `if n == 0 { Ok } else { Err }`)
+                for cn in {x for x in locs if b.locals[x] in ('usize', 'u8', 'u16', 'u32', 'u64')}:
+                    asg = [(xb, st) for xb, j, st in b.all_assigns() if st['lhs'] == {'l': cn}]
+                    zero = [xb for xb, st in asg if st['rv']['k'] == 'use' and st['rv']['op'].get('int') == '0']
+                    incs = []
+                    for xb, st in asg:
+                        rv = st['rv']
+                        src = op_place(rv['op']) if rv['k'] == 'use' else None
+                        if src is not None and src.get('p') == ['f:0']:
+                            d0 = [n2 for _, _, n2 in defs.full.get(src['l'], []) if 'rv' in n2 and n2['rv']['k'] == 'bin' and n2['rv']['bop'] in ('AddWithOverflow', 'Add')]
+                            if d0:
+                                incs.append(xb)
+                    if not zero or not incs or len(zero) + len(incs) != len(asg):
+                        continue
+                    pushes = [cb for cb, t in b.calls() if callee_resolved(t) in must or callee(t) in must]
+                    ok = all(x in pushes or any(b.dominates(p, x) for p in pushes) or (bb not in b.reachable([y for y in b.succ(x) if y not in pushes], avoid=pushes)) for x in incs)
+                    if ok:
+                        classes.append('D:counter-incremented-only-with-push')
             # F: `if !xs.is_empty() { for x in xs { push(..) } Err(()) }`
             empt = [n for c, n in calls_in if c and c.endswith('::is_empty') and not c.startswith(SINK)]
             if empt:
